@@ -1017,6 +1017,10 @@ def run(prog, rep, tier):
         'linearizability over schedules is NOT decided; only the synchronisation discipline that '
         'is necessary for it',
     ]
+    from ..flow import check_dead_computations
+    rep.rule('VALUE-dead', 'no result of a call is bound to a local that is never read (reaching '
+             'definitions)')
+    check_dead_computations(prog, rep, ['tenpy/tools/cache.py', 'tenpy/tools/thread.py', 'tenpy/tools/events.py'])
     return rep.finish(
         level='other',
         explanation='Structural necessary conditions of C20 decided on the current source of '
